@@ -57,6 +57,13 @@ func main() {
 			}
 		}
 		fmt.Println(goEval(os.Args[2], in).outcome)
+		if os.Getenv("TRY_REPEAT") != "" {
+			seen := map[string]int{}
+			for i := 0; i < 50; i++ {
+				seen[goEval(os.Args[2], in).outcome]++
+			}
+			fmt.Println(seen, inherentlyVaries(os.Args[2], in))
+		}
 	default:
 		usage()
 	}
@@ -74,9 +81,13 @@ func cmdRun(args []string) {
 	prop := args[0]
 	fs := flag.NewFlagSet("run", flag.ExitOnError)
 	tier := fs.String("tier", "quick", "")
+	native := fs.String("native", "", "override the Go-native conversion classes (experiments)")
 	seed := fs.Int64("seed", envSeed(), "")
 	report := fs.String("report", "", "")
 	fs.Parse(args[1:])
+	if *native != "" {
+		nativeClasses = *native
+	}
 	f, ok := checks[prop]
 	if !ok {
 		fmt.Fprintf(os.Stderr, "harness: no correspondence check for %s\n", prop)
